@@ -16,6 +16,7 @@ struct St {
   // gate
   int flag = 0; int passed = 0;
   bool single_cond = false;
+  bool notify_unlocked = false;   // "unlock, then notify": legal usage; the waiter-set oracles need the mutex and are skipped
 };
 St *S;
 
@@ -37,7 +38,12 @@ void wait_c(PCondVariable *c, int cnum) {
   order_ev(1 + cnum, 2, cur()->id);
 }
 // signal / broadcast issued while holding the mutex: the parked set can only shrink meanwhile
-void signal_c(PCondVariable *c, int cnum) {
+void signal_c(PCondVariable *c, int cnum, bool locked = true) {
+  if (!locked) {
+    if (!HX_API("p_cond_variable_signal", 1 + cnum, false, p_cond_variable_signal(c))) violate("signal_returned_false", "p_cond_variable_signal", "signal returned FALSE");
+    probe("cond.notify_without_mutex");
+    return;
+  }
   int w0 = shim::cond_waiters(cnum);
   pboolean r = HX_API("p_cond_variable_signal", 1 + cnum, false, p_cond_variable_signal(c));
   if (!r) violate("signal_returned_false", "p_cond_variable_signal", "signal returned FALSE");
@@ -46,7 +52,12 @@ void signal_c(PCondVariable *c, int cnum) {
     if (shim::cond_waiters(cnum) >= w0) violate("signal_woke_nobody", "p_cond_variable_signal", "%d task(s) were waiting, signal returned TRUE, nobody was woken", w0);
   }
 }
-void broadcast_c(PCondVariable *c, int cnum) {
+void broadcast_c(PCondVariable *c, int cnum, bool locked = true) {
+  if (!locked) {
+    if (!HX_API("p_cond_variable_broadcast", 1 + cnum, false, p_cond_variable_broadcast(c))) violate("broadcast_returned_false", "p_cond_variable_broadcast", "broadcast returned FALSE");
+    probe("cond.notify_without_mutex");
+    return;
+  }
   int w0 = shim::cond_waiters(cnum);
   pboolean r = HX_API("p_cond_variable_broadcast", 1 + cnum, false, p_cond_variable_broadcast(c));
   if (!r) violate("broadcast_returned_false", "p_cond_variable_broadcast", "broadcast returned FALSE");
@@ -69,8 +80,8 @@ void producer(int id, int n) {
     SIM_WRITE(S->count);
     S->count++;
     S->produced_sum += item; S->produced_n++;
-    if (S->single_cond) broadcast_c(S->c1, S->c1num); else signal_c(S->c1, S->c1num);
-    unlock_m();
+    if (S->notify_unlocked) { unlock_m(); if (S->single_cond) broadcast_c(S->c1, S->c1num, false); else signal_c(S->c1, S->c1num, false); }
+    else { if (S->single_cond) broadcast_c(S->c1, S->c1num); else signal_c(S->c1, S->c1num); unlock_m(); }
     if (gen(3) == 0) yield_point();
   }
 }
@@ -89,8 +100,8 @@ void consumer(int n) {
     SIM_WRITE(S->count);
     S->count--;
     S->consumed_sum += item; S->consumed_n++;
-    if (S->single_cond) broadcast_c(S->c1, S->c1num); else signal_c(S->c2, S->c2num);
-    unlock_m();
+    if (S->notify_unlocked) { unlock_m(); if (S->single_cond) broadcast_c(S->c1, S->c1num, false); else signal_c(S->c2, S->c2num, false); }
+    else { if (S->single_cond) broadcast_c(S->c1, S->c1num); else signal_c(S->c2, S->c2num); unlock_m(); }
     if (gen(3) == 0) yield_point();
   }
 }
@@ -108,6 +119,7 @@ void root() {
   if (!S->m || !S->c1 || !S->c2) violate("new_returned_null", "", "constructor returned NULL");
   int tier = cfg().tier;
   uint32_t mode = gen(4);
+  S->notify_unlocked = gen(3) == 0;
   if (mode <= 1) {
     // bounded buffer
     int np = (int)gen_range(1, tier ? 4 : 3), nc = (int)gen_range(1, tier ? 4 : 3);
@@ -117,7 +129,7 @@ void root() {
     int total = 0;
     for (int i = 0; i < np; i++) { pn[i] = (int)gen_range(1, tier ? 6 : 4); total += pn[i]; }
     for (int i = 0; i < total; i++) cn[gen((uint32_t)nc)]++;
-    describe("mode=bounded_buffer%s producers=%d consumers=%d cap=%d items=%d", S->single_cond ? "(one cond, broadcast)" : "", np, nc, S->cap, total);
+    describe("%smode=bounded_buffer%s producers=%d consumers=%d cap=%d items=%d", S->notify_unlocked ? "notify-after-unlock " : "", S->single_cond ? "(one cond, broadcast)" : "", np, nc, S->cap, total);
     for (int i = 0; i < np; i++) spawn(0, [i, n = pn[i]]() { producer(i + 1, n); });
     for (int i = 0; i < nc; i++) spawn(0, [n = cn[i]]() { consumer(n); });
     wait_all_others();
@@ -138,8 +150,8 @@ void root() {
       lock_m();
       SIM_WRITE(S->flag);
       S->flag = 1;
-      broadcast_c(S->c1, S->c1num);
-      unlock_m();
+      if (S->notify_unlocked) { unlock_m(); broadcast_c(S->c1, S->c1num, false); }
+      else { broadcast_c(S->c1, S->c1num); unlock_m(); }
     });
     wait_all_others();
     if (S->passed != nw) violate("gate_not_passed", "gate", "%d of %d waiters passed", S->passed, nw);
